@@ -79,7 +79,11 @@ def _chunk(args):
         res["events"] += out.get("events", 0)
         res["states"].extend(out.get("states", ())[:64])
         if out.get("violation"):
-            res["violations"].append((idx, case, out["violation"]))
+            fid = prop.match_known(case, out["violation"]) if hasattr(prop, "match_known") else None
+            if fid is not None and fid in getattr(prop, "known_ids", ()):
+                res["counters"]["known:" + fid] = res["counters"].get("known:" + fid, 0) + 1
+            else:
+                res["violations"].append((idx, case, out["violation"]))
         if res["sample"] is None and out.get("nontrivial"):
             res["sample"] = {"run": idx, "case": case, "digest": out["digest"][:16], "events": out.get("events", 0)}
     return res
@@ -142,6 +146,7 @@ def write_replay(prop, seed, idx, case, violation, digest):
 
 def replay(prop, path, quiet=False):
     doc = json.load(open(path))
+    prop.known_ids = {k["id"] for k in load_known() if k.get("property") == prop.id and k.get("status") == "known"}
     out, err = run_case(prop, doc["case"])
     if err is not None:
         print("HARNESS-ERROR during replay:\n" + err)
@@ -159,6 +164,7 @@ def replay(prop, path, quiet=False):
 def run_batch(prop, tier, seed):
     global _PROP
     _PROP = prop
+    prop.known_ids = {k["id"] for k in load_known() if k.get("property") == prop.id and k.get("status") == "known"}
     t0 = time.time()
     cfg = prop.tiers[tier]
     budget = float(os.environ.get("VERIF_BUDGET_S", cfg["budget_s"]))
@@ -283,7 +289,11 @@ def run_batch(prop, tier, seed):
             entry = next((k for k in known if k["id"] == fid), None)
             if entry is None:
                 continue
-            out, err = run_case(prop, wcase)
+            saved_ids, prop.known_ids = prop.known_ids, set()
+            try:
+                out, err = run_case(prop, wcase)
+            finally:
+                prop.known_ids = saved_ids
             if err is None and out.get("violation") and prop.match_known(wcase, out["violation"]) == fid:
                 line = f"KNOWN-FINDING: property={prop.id} {fid}: {entry.get('what', '')}"
                 print(line, flush=True)
@@ -321,7 +331,7 @@ def run_batch(prop, tier, seed):
             "worker_losses": agg["worker_losses"],
             "harness_errors": n_err,
             "unreplayable_violations": unreplayable,
-            "known_finding_hits": known_hits,
+            "known_finding_hits": {**known_hits, **{k[6:]: v for k, v in counters.items() if k.startswith("known:")}},
             "known_finding_lines": kf_lines,
             "violations_reported": reported,
             "components_real": getattr(prop, "components_real", []),
